@@ -69,6 +69,14 @@ CLAIMED = {
              'abstracted to uninterpreted arithmetic, z3 (QF_UF) shows previously coinciding joints stay identical for any arithmetic.',
         note='Rotation angle as a unit pair (c,s). Arc geometry itself is C04 (here _parameterize is a stub with a free centre). The Arc branch of transform() is not covered yet (raises TypeError under numpy 2.5 in this environment; see DESIGN). UF-sat answers are confirmed on random doubles in the replay.',
         design='3/C10'),
+    'C13': dict(
+        text='Line.radialrange closed form on symbolic end points / query point: t in [0,1], d=|point(t)-z|, dmin <= |point(u)-z| <= dmax for '
+             'every u in [0,1] (z3, all values).  bezier_radialrange degree 2,3: the polynomial handed to np.roots is captured and shown to be '
+             'd/dt|B(t)-z|^2; the selection of min/max over {0,1}+returned roots is shown correct for an arbitrary distance profile and an '
+             'arbitrary separated root list (<=2 real roots quick for quadratics, <=1 for cubics; thorough up to 3/4).  Path.radialrange / '
+             'closest / farthest_point_in_path on n<=3 stub segments: global extreme and index.',
+        note='Complete-roots contract for np.roots + extreme value theorem are trusted to conclude global optimality for curves; zero-length Line excluded; generic leading coefficients in quick (degenerate shapes in thorough).',
+        design='3/C13'),
 }
 
 NOT_YET = 'check not built yet in this round (see DESIGN.md section 3 for the plan)'
